@@ -82,8 +82,9 @@ def main(chk: core.Check, replay):
         run_expr_corpus(chk, "C01", "numpy", exprcorpus.THOROUGH_LEVELS, cap=10 ** 9)
         run_tokens(chk, "C01", 5, 1)
         run_tokens(chk, "C01", 5, 2)
-    from . import structural
+    from . import structural, tracesleg
     structural.run(chk, "C01")
+    tracesleg.run(chk, "C01", schemes=())
 
 
 def replay_one(chk, path):
